@@ -104,7 +104,11 @@ func (m *Mock) Handle(c kafka.VerifCoordCall) kafka.VerifCoordReply {
 		kafka.VerifGroupEmit("M.Close", c.Conn)
 		return kafka.VerifCoordReply{}
 	}
-	kafka.VerifGroupEmit("M.Call", c.Conn, c.Method, Mem(c.MemberID), c.GenerationID, strings.Join(c.Topics, ","), Offsets(c.Offsets))
+	topics := strings.Join(c.Topics, ",")
+	if c.Method == "connect" {
+		topics = strings.Join(c.Addrs, ",") // lets a multi-member harness attribute the connection
+	}
+	kafka.VerifGroupEmit("M.Call", c.Conn, c.Method, Mem(c.MemberID), c.GenerationID, topics, Offsets(c.Offsets))
 	var r kafka.VerifCoordReply
 	if m.Auto != nil {
 		if a, ok := m.Auto(c); ok {
@@ -250,6 +254,13 @@ func (l *Log) Count(pred func(kafka.VerifEvent) bool) int {
 		}
 	}
 	return n
+}
+
+// Snapshot returns a copy of the events seen so far (sink order).
+func (l *Log) Snapshot() []kafka.VerifEvent {
+	l.mu.Lock()
+	defer l.mu.Unlock()
+	return append([]kafka.VerifEvent(nil), l.evs...)
 }
 
 func (l *Log) Len() int {
